@@ -96,7 +96,14 @@ _ISGEN = {}
 def _is_generator(node):
     r = _ISGEN.get(id(node))
     if r is None or r[1] is not node:
-        r = (any(isinstance(n, (ast.Yield, ast.YieldFrom)) for n in ast.walk(node)), node)
+        def own(n):
+            # the statements of this function only: a yield inside a nested function / lambda makes *that* one a generator
+            for c in ast.iter_child_nodes(n):
+                if isinstance(c, (ast.FunctionDef, ast.AsyncFunctionDef, ast.Lambda, ast.ClassDef)):
+                    continue
+                yield c
+                yield from own(c)
+        r = (any(isinstance(n, (ast.Yield, ast.YieldFrom)) for n in own(node)), node)
         _ISGEN[id(node)] = r
     return r[0]
 
